@@ -66,6 +66,11 @@ def check_encoding_chars(encoding_chars):
         raise InvalidEncodingChars('Missing required encoding chars')
 
     values = [v for k, v in encoding_chars.items() if k in required or k == 'TRUNCATION']
+    try:
+        if any(len(v) != 1 for v in values):
+            raise InvalidEncodingChars('Every encoding char must be a single character')
+    except TypeError:  # None, a number ...
+        raise InvalidEncodingChars('Every encoding char must be a single character')
     if len(values) > len(set(values)):
         raise InvalidEncodingChars('Found duplicate encoding chars')
 
